@@ -155,16 +155,7 @@ def run(ctx):
     for q in ("Taster.taste_plotfile_structure", "Taster.taste_binary_headers", "Taster.taste_binary_shape"):
         formulas.rule_level_range(ctx, f"{P}.LEVEL-RANGE", prog.func(TT, q, P))
     # CLI wiring (E7)
-    cli = prog.func("amr_kitchen/taste/cli.py", "main", P)
-    opts = wiring.cli_options(cli)
-    call, b = wiring.call_bindings(prog, cli, lambda t: t == "Taster")
-    if call is None:
-        raise AnalysisError(f"{P}.WIRING", cli.site, "Taster(...) call not found")
-    for param, dest, pol in (("limit_level", "limit_level", None), ("binary_headers", "no_bin_headers", "store_false"),
-                             ("binary_shape", "no_bin_shape", "store_false"), ("binary_data", "bin_data", "store_true"),
-                             ("boxes_coordinates", "box_coords", "store_true"), ("nofail", "nofail", "store_true"),
-                             ("plt_file", "plotfile", None)):
-        wiring.rule_wired(ctx, f"{P}.WIRING", cli, b, param, dest, opts, pol)
+    tl.cli_wiring(ctx, P)
     if ctx.tier == "thorough":
         # sweep: every method of Taster (reachable or not) for definedness, every parser sibling
         for m in cls.methods.values():
